@@ -207,38 +207,107 @@ Print Assumptions C05_returns_by_deadline.
 (* The correspondence check (Check/C05.v) *)
 
 (* 11. The boolean property the check evaluates on the implementation's observed behaviour is true of
-   the model's own behaviour on EVERY input (any configuration, environment, duty; no hypothesis):
-   P_b is a theorem of the model.  Hence a case on which P_b is false is a case on which the
-   implementation differs from the model, and P_b never raises an alarm on a tree that does what
-   the model does. *)
+   the model's own behaviour on EVERY input (any configuration, environment, latencies of the
+   providers, duty; no hypothesis): P_b -- its clauses on what is asked, signed and submitted, evaluated
+   on the answers the providers give under the one deadline, and its clauses on time -- is a theorem
+   of the model.  Hence a case on which P_b is false is a case on which the implementation differs
+   from the model, and P_b never raises an alarm on a tree that does what the model does. *)
 Theorem C05_model_satisfies_P_b :
-  forall id cf e d prep, P_b (model_case id cf e d prep) = true.
+  forall id cf e l d prep, P_b (model_case_t id cf e l d prep) = true.
 Proof. exact model_satisfies_P_b. Qed.
 Print Assumptions C05_model_satisfies_P_b.
 
-(* 12. On a case where no two relay goroutines act at one instant, [agree] is true exactly when
-   everything observed (every request of Prepare and of Propose with its arguments, Prepare's
-   result, every relay call with its time and content, the submission with its time, the instant
-   Propose returns) equals what the model does. *)
+(* 12. On a case where nothing is left to Go's scheduler (no answer due at the instant the context
+   ends, no two relay goroutines acting at one instant), [agree] is true exactly when everything
+   observed (every request of Prepare and of Propose with its arguments, Prepare's result, the duty
+   handed to Propose, the instant of every request of Propose and whether its context was alive, every
+   relay call with its time and content, the submission with its time and whether it was cut short,
+   the instant Propose returns) equals what the model does. *)
 Theorem C05_agree_decides_equality_with_model :
   forall c,
-    tie_free (e_deadline (c_env c)) (case_plans c) = true ->
+    case_tie_free c = true ->
     (agree c = true <->
-     run (c_cfg c) (c_env c) (c_duty c) (c_prepare c) = ((c_prep_events c, c_prep_ok c), c_obs c)
+     fst (run (c_cfg c) (c_env c) (c_duty c) (c_prepare c)) = (c_prep_events c, c_prep_ok c)
      /\ d_account (duty_after (c_cfg c) (c_env c) (c_duty c) (c_prepare c)) = c_post_account c
-     /\ d_randao (duty_after (c_cfg c) (c_env c) (c_duty c) (c_prepare c)) = c_post_randao c).
+     /\ d_randao (duty_after (c_cfg c) (c_env c) (c_duty c) (c_prepare c)) = c_post_randao c
+     /\ t_res (case_model c) = c_obs c /\ t_times (case_model c) = c_times c /\ t_live (case_model c) = c_live c
+     /\ t_t0 (case_model c) = c_t0 c /\ t_ret (case_model c) = c_ret c /\ t_sub_cut (case_model c) = c_sub_cut c).
 Proof. exact agree_sound. Qed.
 Print Assumptions C05_agree_decides_equality_with_model.
 
-(* 13. P_b is sound for the property's clauses on the OBSERVED behaviour (no model involved). *)
+(* 12b. Time.  Every provider takes its time and gives up with the context's error when the context
+   ends first ([propose_t]: Propose hands the ONE context it was given to every step).  For every
+   configuration, environment, latencies and complete duty: whatever is cut short, the beacon node is
+   asked for a block of the duty's slot with the duty's RANDAO reveal, with the graffiti obtained -- or
+   zero graffiti when the graffiti provider's answer was cut; and when the scripted time line up to
+   the signature fits into the context, NO answer is cut and a good block that is not blinded is
+   signed and submitted the moment the signature is there -- however long the graffiti provider and
+   the auctioneer took and whatever they answered.  A slow graffiti lookup or auction degrades; it
+   takes nothing but its own time from the steps that follow. *)
+Theorem C05_slow_steps_degrade_not_skip :
+  forall c e l d acct,
+    d_randao d <> 0 -> d_account d = Some acct ->
+    let m := propose_t c e l d in
+    (exists g, In (EProposal (d_slot d) (d_randao d) g (c_boost c)) (o_events (t_res m))
+               /\ (g = graffiti_value e \/ (x_graffiti (t_cuts m) = true /\ g = 0)))
+    /\ (budget e l < e_deadline e ->
+        t_cuts m = no_cuts
+        /\ In (EProposal (d_slot d) (d_randao d) (graffiti_value e) (c_boost c)) (o_events (t_res m))
+        /\ forall pr h sig, signable e d pr h -> p_blinded pr = false -> e_dom_block e = true -> e_sig_block e = Some sig ->
+             exists code, signed_container (p_version pr) false = Some code
+                          /\ o_submit (t_res m) = Some (0, signed_proposal pr h sig code)).
+Proof. exact slow_steps_degrade. Qed.
+Print Assumptions C05_slow_steps_degrade_not_skip.
+
+(* 12c. ... and what the timed model does IS [propose] on the answers as they are given under the one
+   deadline, so theorems 1-10 hold of it. *)
+Theorem C05_timed_is_propose_on_given_answers :
+  forall c e l d,
+    t_res (propose_t c e l d)
+    = propose c (apply_cuts e (cuts_of e l) (e_deadline e - t_t0 (propose_t c e l d))) d
+    /\ t_cuts (propose_t c e l d) = cuts_of e l
+    /\ t_live (propose_t c e l d) = map (fun t => t <? e_deadline e) (t_times (propose_t c e l d)).
+Proof. intros c e l d. destruct (propose_t_parts c e l d) as (H1 & H2 & _ & H4 & _). auto. Qed.
+Print Assumptions C05_timed_is_propose_on_given_answers.
+
+(* 13. P_b is sound for the property's clauses on the OBSERVED behaviour (no model involved).  [actual c]
+   is the case with the answers the providers were SEEN to give: a scripted answer that the provider
+   cut short with the context's error is that error, every other answer is the scripted one
+   ([C05_actual_answers]). *)
+Theorem C05_actual_answers :
+  forall c,
+    let e := c_env c in let a := c_env (actual c) in
+    (forall p, e_proposal a = POk p -> e_proposal e = POk p)
+    /\ (forall s, e_sig_block a = Some s -> e_sig_block e = Some s)
+    /\ (e_dom_block a = true -> e_dom_block e = true)
+    /\ (forall w al, e_auction a = AOk w al -> e_auction e = AOk w al)
+    /\ (forall g, e_graffiti a = GOk g -> e_graffiti e = GOk g)
+    /\ e_accounts a = e_accounts e /\ e_sig_randao a = e_sig_randao e /\ e_relays a = e_relays e.
+Proof. exact actual_answers. Qed.
+Print Assumptions C05_actual_answers.
+
+(* 13b. P_b on time: every request seen before the deadline came with a live context; in budget, the
+   beacon node, the domain provider and the account were not cut short; nor was the submitter while
+   the context had time left. *)
+Theorem C05_P_b_sound_time :
+  forall c,
+    P_b c = true ->
+    (forall k t, nth_error (c_times c) k = Some t -> t < e_deadline (c_env c) -> nth_error (c_live c) k = Some true)
+    /\ (budget (c_env c) (c_lat c) < e_deadline (c_env c) ->
+        x_proposal (c_cut c) = false /\ x_domain (c_cut c) = false /\ x_sign (c_cut c) = false)
+    /\ (forall s sp, o_submit (c_obs c) = Some (s, sp) -> s + c_t0 c + l_submit (c_lat c) < e_deadline (c_env c) ->
+        c_sub_cut c = false).
+Proof. exact P_b_sound_time. Qed.
+Print Assumptions C05_P_b_sound_time.
+
 Theorem C05_P_b_sound_sign_block :
   forall c a s p pa st bo dom,
     P_b c = true -> In (ESignBlock a s p pa st bo dom) (o_events (c_obs c)) ->
     duty_account c = Some a /\ s = d_slot (c_duty c) /\ p = d_validator (c_duty c)
     /\ dom = (DOMAIN_BEACON_PROPOSER, d_slot (c_duty c) / c_spe (c_cfg c))
-    /\ exists pr h, e_proposal (c_env c) = POk pr /\ p_block pr = Some h /\ h_slot h = d_slot (c_duty c)
+    /\ exists pr h, e_proposal (c_env (actual c)) = POk pr /\ p_block pr = Some h /\ h_slot h = d_slot (c_duty c)
          /\ pa = h_parent h /\ st = h_state h /\ bo = h_body h.
-Proof. exact P_b_sound_sign_block. Qed.
+Proof. intros c a s p pa st bo dom H Hin. exact (P_core_sound_sign_block (actual c) a s p pa st bo dom (P_b_core c H) Hin). Qed.
 Print Assumptions C05_P_b_sound_sign_block.
 
 Theorem C05_P_b_sound_sign_randao :
@@ -246,41 +315,41 @@ Theorem C05_P_b_sound_sign_randao :
     P_b c = true -> In (ESignRandao a ep dom) (c_prep_events c) ->
     provided_account c = Some a /\ ep = d_slot (c_duty c) / c_spe (c_cfg c)
     /\ dom = (DOMAIN_RANDAO, d_slot (c_duty c) / c_spe (c_cfg c)).
-Proof. exact P_b_sound_sign_randao. Qed.
+Proof. intros c a ep dom H Hin. exact (P_core_sound_sign_randao (actual c) a ep dom (P_b_core c H) Hin). Qed.
 Print Assumptions C05_P_b_sound_sign_randao.
 
 Theorem C05_P_b_sound_submit_local :
   forall c t sp,
-    P_b c = true -> proposal_blinded c = false -> o_submit (c_obs c) = Some (t, sp) ->
+    P_b c = true -> proposal_blinded (actual c) = false -> o_submit (c_obs c) = Some (t, sp) ->
     exists pr h sig code,
-      e_proposal (c_env c) = POk pr /\ p_block pr = Some h /\ e_sig_block (c_env c) = Some sig
+      e_proposal (c_env (actual c)) = POk pr /\ p_block pr = Some h /\ e_sig_block (c_env (actual c)) = Some sig
       /\ signed_container (p_version pr) (p_blinded pr) = Some code
       /\ sp = signed_proposal pr h sig code
       /\ concat (o_unblind (c_obs c)) = [].
-Proof. exact P_b_sound_submit_local. Qed.
+Proof. intros c t sp H Hb Hs. exact (P_core_sound_submit_local (actual c) t sp (P_b_core c H) Hb Hs). Qed.
 Print Assumptions C05_P_b_sound_submit_local.
 
 Theorem C05_P_b_sound_submit_blinded :
   forall c t sp,
-    P_b c = true -> proposal_blinded c = true -> o_submit (c_obs c) = Some (t, sp) ->
+    P_b c = true -> proposal_blinded (actual c) = true -> o_submit (c_obs c) = Some (t, sp) ->
     exists signed fc b,
-      expected_signed c = Some signed /\ full_container (sp_version signed) = Some fc
+      expected_signed (actual c) = Some signed /\ full_container (sp_version signed) = Some fc
       /\ sp = {| sp_version := sp_version signed; sp_blinded := false; sp_conts := [(fc, b)] |}
-      /\ delivered_by c t b = true.
-Proof. exact P_b_sound_submit_blinded. Qed.
+      /\ delivered_by (actual c) t b = true.
+Proof. intros c t sp H Hb Hs. exact (P_core_sound_submit_blinded (actual c) t sp (P_b_core c H) Hb Hs). Qed.
 Print Assumptions C05_P_b_sound_submit_blinded.
 
 Theorem C05_P_b_sound_no_relay_no_submit :
-  forall c, P_b c = true -> proposal_blinded c = true -> some_call_answered c = false ->
+  forall c, P_b c = true -> proposal_blinded (actual c) = true -> some_call_answered (actual c) = false ->
     o_submit (c_obs c) = None.
-Proof. exact P_b_sound_no_relay_no_submit. Qed.
+Proof. intros c H Hb Hs. exact (P_core_sound_no_relay_no_submit (actual c) (P_b_core c H) Hb Hs). Qed.
 Print Assumptions C05_P_b_sound_no_relay_no_submit.
 
 Theorem C05_P_b_sound_prepared_duty_own :
   forall c, P_b c = true -> c_prepare c = true -> c_prep_ok c = true ->
     exists a, c_post_account c = Some a /\ provided_account c = Some a
               /\ e_sig_randao (c_env c) = Some (c_post_randao c).
-Proof. exact P_b_sound_prepared_duty_own. Qed.
+Proof. intros c H Hp Hok. exact (P_core_sound_prepared_duty_own (actual c) (P_b_core c H) Hp Hok). Qed.
 Print Assumptions C05_P_b_sound_prepared_duty_own.
 
 (* 14. Histories: one service instance handles any number of duties, the Prepare and Propose calls in
@@ -431,4 +500,40 @@ Example C05_example_history :
       /\ In (EProposal 100 55 0 90) (o_events r0)
   | _ => False
   end.
+Proof. vm_compute. intuition. Qed.
+
+(* time: the graffiti provider answers after 3 s of a 4 s context, the beacon node needs 200 ms, the
+   account 100 ms, the submitter 500 ms: nothing is cut, the requests are made at 0 / 3000 / 3000 /
+   3200 / 3200 ms with a live context, the block carries the graffiti, is handed to the submitter when
+   the signature is there (3300 ms) and Propose returns at 3800 ms *)
+Example C05_example_slow_graffiti :
+  let l := {| l_graffiti := 3000; l_auction := 0; l_proposal := 200; l_domain := 0; l_sign := 100; l_submit := 500 |} in
+  let e := ex_env ex_local AErr (GOk 8) [] in
+  let d := duty_after ex_cfg e ex_duty true in
+  let m := propose_t ex_cfg e l d in
+  budget e l < e_deadline e
+  /\ t_cuts m = no_cuts
+  /\ o_events (t_res m) = [EGraffiti 100 7; EAuction 100 9 3; EProposal 100 55 8 90; EDomain DOMAIN_BEACON_PROPOSER 3;
+                           ESignBlock 3 100 7 11 12 13 (DOMAIN_BEACON_PROPOSER, 3)]
+  /\ t_times m = [0; 3000; 3000; 3200; 3200] /\ t_live m = [true; true; true; true; true]
+  /\ t_t0 m = 3300 /\ t_ret m = 3800 /\ t_sub_cut m = false
+  /\ o_submit (t_res m) = Some (0, {| sp_version := VDeneb; sp_blinded := false;
+                                      sp_conts := [(CDeneb, {| sb_hdr := Some ex_hdr; sb_sig := 66; sb_blobs := 5 |})] |}).
+Proof. vm_compute. repeat split; reflexivity. Qed.
+
+(* time: a graffiti provider that never answers holds Propose until its context ends (the code gives
+   the lookup no deadline of its own); the beacon node is then asked with a context that is over, and
+   nothing is signed.  A provider that fails after 3 s costs 3 s: the beacon node is asked for an
+   ungraffitied block with 1 s left, and the block is submitted. *)
+Example C05_example_hanging_and_failing_graffiti :
+  let e g := ex_env ex_local ANone g [] in
+  let d := duty_after ex_cfg (e GErr) ex_duty true in
+  let hang := propose_t ex_cfg (e (GOk 8))
+                {| l_graffiti := 10000000; l_auction := 0; l_proposal := 0; l_domain := 0; l_sign := 0; l_submit := 0 |} d in
+  let fail := propose_t ex_cfg (e GErr)
+                {| l_graffiti := 3000; l_auction := 0; l_proposal := 0; l_domain := 0; l_sign := 0; l_submit := 0 |} d in
+  (o_events (t_res hang) = [EGraffiti 100 7; EProposal 100 55 0 90] /\ t_times hang = [0; 4000]
+   /\ t_live hang = [true; false] /\ o_submit (t_res hang) = None /\ t_ret hang = 4000)
+  /\ (t_times fail = [0; 3000; 3000; 3000] /\ t_live fail = [true; true; true; true]
+      /\ In (EProposal 100 55 0 90) (o_events (t_res fail)) /\ is_some (o_submit (t_res fail)) = true /\ t_ret fail = 3000).
 Proof. vm_compute. intuition. Qed.
